@@ -202,6 +202,7 @@ func registerStubs(e *Engine) {
 	registerProtoStubs(e)
 	registerHashStubs(e)
 	registerRoaringStubs(e)
+	registerConnectStubs(e)
 
 	// ---- fmt ----
 	e.reg("fmt.Sprintf", func(fr *frame, args []value) value { return fr.ex.sprintf(fr, args[0], args[1].([]value)) })
